@@ -17,7 +17,14 @@ T1 = [('Bashlex.Props.C09_sound', 'Bashlex.Props.C09'), ('Bashlex.Props.C09_exac
       ('Bashlex.LR.Raw.check_sound', 'Bashlex.LR.Check'),
       ('Bashlex.Props.termNames_agree', 'Bashlex.Props.C09'), ('Bashlex.Props.actions_covered', 'Bashlex.Props.C09')]
 
-reg('C01', 'propchecks.c01', 'proof', T1, [ASCII, DEPTH, CORR])
+C01M = 'Bashlex.Props.C01'
+T_C01 = [('Bashlex.C01.' + t, C01M) for t in ['C01_partial', 'C01_partial_single', 'C01_partial_split', 'C01_parserRun', 'C01_conditional',
+         'expand_progress', 'sat_expandwordinternal', 'parseLoop_exn', 'shAction_sound', 'C01_expand_terminates', 'C01_parse_terminates',
+         'C01_no_marker', 'C01_foreign', 'disciplined_iff']]
+reg('C01', 'propchecks.c01', 'proof', T_C01 + T1, [ASCII, DEPTH, CORR,
+    'C01_partial bounds what can escape the model: ParsingError, NotImplementedError, 7 listed (type, site) pairs above the tokenizer (3 are recorded defects '
+    'with kernel-checked witnesses, 4 could not be excluded), 14 raise sites of the tokenizer (not analysed for reachability) and the out-of-fuel markers of the '
+    'loops covered by fuel only (LR engine, nesting depth 64, tokenizer loops); termination is proved for the loops of _expandwordinternal and parse()'])
 reg('C03', 'propchecks.treespec', 'proof', T1, [ASCII, DEPTH, CORR])
 reg('C04', 'propchecks.treespec', 'proof', T1, [ASCII, DEPTH, CORR])
 reg('C05', 'propchecks.treespec', 'proof', T1, [ASCII, DEPTH, CORR])
@@ -42,11 +49,24 @@ C15M = 'Bashlex.Props.C15'
 reg('C15', 'propchecks.c15', 'proof', [('Bashlex.Props.C15', C15M), ('Bashlex.Props.enters_visit', C15M), ('Bashlex.Props.reached_noprune', C15M),
      ('Bashlex.Props.visit_balanced', C15M), ('Bashlex.Props.preorder_mapPos', C15M), ('Bashlex.Props.kinds_covered', C15M)], [CORR])
 
-reg('C06', 'propchecks.c06', 'proof', T1[:1], [ASCII, DEPTH, CORR, 'quote removal: per-input evaluation against the Lean definition; no all-inputs theorem for the expander yet'])
+C06M = 'Bashlex.Props.C06'
+T_C06 = [('Bashlex.C06.' + t, C06M) for t in ['C06_plain', 'C06_total', 'C06_partial', 'C06_partial_sat', 'C06_param', 'C06_param_spec',
+         'expandwordinternal_plain', 'sat_expandwordinternal_param', 'contGo_hasContinuation']]
+reg('C06', 'propchecks.c06', 'proof', T_C06 + T1[:1], [ASCII, DEPTH, CORR,
+    'C06_partial/C06_param: the value of a word token is Spec.quoteRemove of its text for every balanced token text free of the recorded defect features K1-K5, K8, K9 '
+    '(and K7x, quotes inside ${...}, for words with parameters) whose QUOTED flag is consistent; words with command/process substitutions, backquotes, tildes and '
+    'here-document bodies are decided per input against the same Lean definition'])
 
 reg('C07', 'propchecks.c07', 'proof', T1[:1], [ASCII, DEPTH, CORR])
 
-reg('C10', 'propchecks.c10', 'proof', T1[:1], [ASCII, CORR])
+C10M = 'Bashlex.Props.C10'
+T_C10 = [('Bashlex.C10.' + t, C10M) for t in ['readline_spec', 'makeheredoc_spec', 'gather_spec', 'specGather_nil', 'specGather_cons', 'specGatherS_fifo',
+         'gather_beyond_end', 'readtoken_gather_slot_empty', 'ofInput_noFinalBackslash', 'specHeredoc_value_suffix', 'specHeredoc_cursor',
+         'specHeredoc_slice', 'specHeredoc_lines', 'specHeredoc_none', 'gather_top_eq_local', 'SimEq.top_eq_local']]
+reg('C10', 'propchecks.c10', 'proof', T_C10 + T1[:1], [ASCII, CORR,
+    'the theorems cover the reader (readline, makeheredoc, gatherheredocuments: FIFO pairing, body = lines up to the first line equal to the delimiter, span, cursor) '
+    'given the queue of pending redirects; WHEN the parser queues a redirect relative to the tokenizer gathering (LALR look-ahead, defect D11) and quote removal of '
+    'the delimiter (the raw token is compared) are decided per input'])
 
 T7 = [('Bashlex.History.results_eq_solo', QC), ('Bashlex.History.result_get', QC), ('Bashlex.Q.run_touched_irrelevant', QC), ('Bashlex.Q.run_touched', QC),
       ('Bashlex.Q.run_frame', QC), ('Bashlex.parseFrom_touched_irrelevant', QC), ('Bashlex.runParser_touched_irrelevant', QC)]
